@@ -125,3 +125,51 @@ pub open spec fn move_wf(v: Pos, m: Move) -> bool {
 pub open spec fn no_king_capture(v: Pos, m: Move) -> bool {
     f_piece_attacked(m.bits) != 6
 }
+
+/// what a generator must know about (src, dst, piece, flags, promotion, e.p. opportunity) before it may ask make_move to
+/// encode the move: exactly the clauses of move_wf that talk about the request rather than about the packed result
+pub open spec fn move_request_ok(v: Pos, src: u32, dst: u32, piece_active: u64, castle_flag: bool, ep_flag: bool, promo: u64, ep_opp: u32) -> bool {
+    let white = v.turn == 0;
+    let me = side(v, v.turn);
+    let op = side(v, (1 - v.turn) as u32);
+    let piece = piece_at(me, sqm(src));
+    let castle = is_castle_rule(piece, src, dst);
+    &&& src < 64 && dst < 64 && src != dst
+    &&& piece != 0 && piece_active == piece
+    &&& all_occ(me) & sqm(dst) == 0
+    &&& (promo == 0 || (2 <= promo && promo <= 5 && piece == 1))
+    &&& (piece == 1 ==> ((promo != 0) <==> row_of(dst) == (if white { 0u32 } else { 7u32 })))
+    &&& (piece == 1 ==> (if white { dst < src } else { dst > src }))
+    &&& castle_flag == castle
+    &&& (castle ==> {
+            &&& src == (if white { E1 } else { E8 })
+            &&& (if dst > src { me.ks } else { me.qs })
+            &&& (all_occ(me) | all_occ(op)) & (if dst > src { sqm((src + 1) as u32) | sqm((src + 2) as u32) }
+                                               else { sqm((src - 1) as u32) | sqm((src - 2) as u32) | sqm((src - 3) as u32) }) == 0
+        })
+    &&& (piece == 1 && (dst == src + 16 || src == dst + 16) ==> {
+            &&& (if white { 48 <= src && src < 56 && src == dst + 16 } else { 8 <= src && src < 16 && dst == src + 16 })
+            &&& (all_occ(me) | all_occ(op)) & (sqm(dst) | sqm(((src + dst) / 2) as u32)) == 0
+        })
+    &&& ep_flag == is_ep_rule(v, piece, src, dst)
+    &&& ep_opp == next_ep_rule(piece, src, dst)
+    &&& piece_at(op, capture_mask(v, piece, src, dst)) != 6      // no king capture: the side not to move is not in check
+}
+/// make_move appended exactly one move — well-formed for v, with the requested squares and promotion — or, in
+/// capture/promotion-only mode, nothing when the request is a quiet non-promoting move
+pub open spec fn emitted_one_or_filtered(v: Pos, before: Seq<Move>, after: Seq<Move>, nq_only: bool, src: u32, dst: u32, promo: u64) -> bool {
+    let me = side(v, v.turn);
+    let op = side(v, (1 - v.turn) as u32);
+    let piece = piece_at(me, sqm(src));
+    let captured = piece_at(op, capture_mask(v, piece, src, dst));
+    if nq_only && captured == 0 && promo == 0 {
+        after == before
+    } else {
+        &&& after.len() == before.len() + 1
+        &&& after.subrange(0, before.len() as int) == before
+        &&& move_wf(v, after[before.len() as int]) && no_king_capture(v, after[before.len() as int])
+        &&& f_source_square(after[before.len() as int].bits) == src
+        &&& f_target_square(after[before.len() as int].bits) == dst
+        &&& f_promotion_piece(after[before.len() as int].bits) == promo
+    }
+}
